@@ -201,6 +201,9 @@ func rootAction(c *cli.Context) (err error) {
 		return err
 	}
 
+	// contexts are shut down once, after the last target, whether it succeeded or not
+	defer taskRunner.Finish()
+
 	targets := c.Args().Slice()
 	if len(targets) > 0 {
 		for _, target := range targets {
